@@ -226,41 +226,47 @@ theorem bucketWalk_spec (visit : Nat → Node → Int × Bool) (i : Nat) : ∀ (
       w'.seen = (visitList visit w.idx ns).1.reverse ++ w.seen ∧
       w'.idx = w.idx + (visitList visit w.idx ns).1.length ∧
       (ns ≠ [] → w'.res = (visitList visit w.idx ns).2.1) ∧ (ns = [] → w' = w) ∧
-      List.Perm (nodes w.t) ((visitList visit w.idx ns).2.2 ++ nodes w'.t) ∧ tr.evs = [])
+      List.Perm (nodes w.t) ((visitList visit w.idx ns).2.2 ++ nodes w'.t) ∧ tr.evs = [] ∧
+      ∀ c ∈ tr.calls, 1 ≤ c.m)
   | [], w, inv, _, _, _ => by
     refine R.Spec.pure ⟨inv, WGeom.refl _, fun _ _ => rfl, by simp [visitList], by simp [visitList],
-      fun h => absurd rfl h, fun _ => rfl, by simp [visitList], rfl⟩
+      fun h => absurd rfl h, fun _ => rfl, by simp [visitList], rfl, by simp⟩
   | n :: ns, w, inv, hmem, hnd, hmode => by
     rw [bucketWalk_cons]
     have hn : n ∈ nodes w.t := hmem n (by simp)
     simp only [List.map_cons, List.nodup_cons, List.mem_map, not_exists, not_and] at hnd
     -- the callback's effect on the table
-    have hstep : ∃ t1 tr1, visitErase hf w.t (visit w.idx n).2 n = { tr := tr1, val := .ok t1 } ∧ tr1.evs = [] ∧
+    have hstep : ∃ t1 tr1, visitErase hf w.t (visit w.idx n).2 n = { tr := tr1, val := .ok t1 } ∧
+        (tr1.evs = [] ∧ ∀ c ∈ tr1.calls, 1 ≤ c.m) ∧
         Inv hf t1 ∧ WGeom w.t t1 ∧ (∀ j, j ≠ i → t1.bk[j]? = w.t.bk[j]?) ∧
         List.Perm (nodes w.t) ((if (visit w.idx n).2 then [n] else []) ++ nodes t1) := by
       by_cases he : (visit w.idx n).2 = true
       · rcases hmode with hm | ⟨hs, h, hh, hk⟩
         · rw [hm] at he; cases he
         · obtain ⟨t1, e1, i1, g1, o1, p1⟩ := visitErase_step hf inv hs hh hn
-          refine ⟨t1, _, by rw [he]; exact e1, rfl, i1, g1, ?_, by simpa [he] using p1⟩
+          have hc1 : 1 ≤ w.t.count := inv.ready (by rw [hh]; rfl)
+          refine ⟨t1, _, by rw [he]; exact e1, ⟨rfl, by simpa using hc1⟩, i1, g1, ?_, by simpa [he] using p1⟩
           intro j hj
           exact o1 j (by rw [hk n (by simp)]; exact hj)
       · have he' : (visit w.idx n).2 = false := by simpa using he
-        refine ⟨w.t, {}, by rw [he']; rfl, rfl, inv, WGeom.refl _, fun _ _ => rfl, by simp [he']⟩
-    obtain ⟨t1, tr1, e1, ev1, i1, g1, o1, p1⟩ := hstep
-    rw [e1]
-    have hb := bind_ok (m := ({ tr := tr1, val := .ok t1 } : R HT))
-      (f := fun t' => if (visit w.idx n).1 ≠ 0 then
-          pure { t := t', idx := w.idx + 1, seen := n :: w.seen, res := (visit w.idx n).1 }
-        else bucketWalk hf visit { t := t', idx := w.idx + 1, seen := n :: w.seen, res := (visit w.idx n).1 } ns) rfl
+        refine ⟨w.t, {}, by rw [he']; rfl, ⟨rfl, by simp⟩, inv, WGeom.refl _, fun _ _ => rfl, by simp [he']⟩
+    have hstepS : (visitErase hf w.t (visit w.idx n).2 n).Spec (fun tr1 t1 =>
+        (tr1.evs = [] ∧ ∀ c ∈ tr1.calls, 1 ≤ c.m) ∧
+        Inv hf t1 ∧ WGeom w.t t1 ∧ (∀ j, j ≠ i → t1.bk[j]? = w.t.bk[j]?) ∧
+        List.Perm (nodes w.t) ((if (visit w.idx n).2 then [n] else []) ++ nodes t1)) := by
+      obtain ⟨t1, tr1, e1, hh1, i1, g1, o1, p1⟩ := hstep
+      rw [e1]; exact R.Spec.mk_ok hh1.2 ⟨hh1, i1, g1, o1, p1⟩
+    refine R.Spec.bind hstepS ?_
+    rintro tr1 t1 ⟨⟨ev1, pos1⟩, i1, g1, o1, p1⟩
     by_cases hr : (visit w.idx n).1 ≠ 0
     · -- the callback asks to stop
-      unfold R.Spec
-      rw [hb.1, hb.2, if_pos hr]
-      simp only [pure_val, pure_tr, Tr.append_empty]
+      rw [if_pos hr]
+      refine R.Spec.pure ?_
       rw [visitList_cons_stop hr]
-      exact ⟨i1, g1, o1, by simp, by simp, fun _ => rfl, (fun h => by cases h), p1, ev1⟩
+      exact ⟨i1, g1, o1, by simp, by simp, fun _ => rfl, (fun h => by cases h), p1, by simpa using ev1,
+        by simpa using pos1⟩
     · have hr0 : (visit w.idx n).1 = 0 := by simpa using hr
+      rw [if_neg hr]
       -- continue with the rest of the chain
       have hmem1 : ∀ m ∈ ns, m ∈ nodes t1 := by
         intro m hm
@@ -280,33 +286,31 @@ theorem bucketWalk_spec (visit : Nat → Node → Int × Bool) (i : Nat) : ∀ (
         · refine Or.inr ⟨by rw [g1.1]; exact hs, h, by rw [g1.2.1]; exact hh, ?_⟩
           intro m hm
           rw [g1.2.2.1]; exact hk m (by simp [hm])
-      have ih := bucketWalk_spec visit i ns
-        { t := t1, idx := w.idx + 1, seen := n :: w.seen, res := (visit w.idx n).1 } i1 hmem1 hnd.2 hmode1
-      unfold R.Spec at ih ⊢
-      rw [hb.1, hb.2, if_neg hr]
+      refine (bucketWalk_spec visit i ns
+        { t := t1, idx := w.idx + 1, seen := n :: w.seen, res := (visit w.idx n).1 } i1 hmem1 hnd.2 hmode1).mono ?_
+      rintro tr2 w' ⟨i2, g2, o2, s2, x2, r2, z2, p2, ev2, pos2⟩
+      simp only at g2 o2 s2 x2 r2 z2 p2
       rw [visitList_cons_go hr0]
-      cases hv : (bucketWalk hf visit
-          { t := t1, idx := w.idx + 1, seen := n :: w.seen, res := (visit w.idx n).1 } ns).val with
-      | error e => rw [hv] at ih; exact ih
-      | ok w' =>
-        rw [hv] at ih
-        obtain ⟨i2, g2, o2, s2, x2, r2, z2, p2, ev2⟩ := ih
-        simp only at g2 o2 s2 x2 r2 z2 p2
-        refine ⟨i2, g1.trans g2, fun j hj => by rw [o2 j hj, o1 j hj], ?_, ?_, ?_, (fun h => by cases h), ?_, ?_⟩
-        · rw [s2]; simp
-        · rw [x2]; simp; omega
-        · intro _
-          by_cases hns : ns = []
-          · subst hns
-            rw [z2 rfl]; simp [visitList, hr0]
-          · exact r2 hns
-        · refine p1.trans ?_
-          by_cases he : (visit w.idx n).2 = true
-          · simp only [he, if_true]
-            simpa using List.Perm.cons n p2
-          · simp only [he]
-            simpa using p2
-        · simp [ev1, ev2]
+      refine ⟨i2, g1.trans g2, fun j hj => by rw [o2 j hj, o1 j hj], ?_, ?_, ?_, (fun h => by cases h), ?_, ?_, ?_⟩
+      · rw [s2]; simp
+      · rw [x2]; simp; omega
+      · intro _
+        by_cases hns : ns = []
+        · subst hns
+          rw [z2 rfl]; simp [visitList, hr0]
+        · exact r2 hns
+      · refine p1.trans ?_
+        by_cases he : (visit w.idx n).2 = true
+        · simp only [he, if_true]
+          simpa using List.Perm.cons n p2
+        · simp only [he]
+          simpa using p2
+      · simp [ev1, ev2]
+      · intro c hc
+        simp only [Tr.append_calls, List.mem_append] at hc
+        rcases hc with h | h
+        · exact pos1 c h
+        · exact pos2 c h
 
 end Cstl.Hash
 
@@ -385,10 +389,11 @@ theorem tableWalk_spec (visit : Nat → Node → Int × Bool) (t : HT) : ∀ (d 
       w'.seen = (visitList visit w.idx (rest t i d)).1.reverse ++ w.seen ∧
       w'.idx = w.idx + (visitList visit w.idx (rest t i d)).1.length ∧
       w'.res = (visitList visit w.idx (rest t i d)).2.1 ∧
-      List.Perm (nodes w.t) ((visitList visit w.idx (rest t i d)).2.2 ++ nodes w'.t) ∧ tr.evs = [])
+      List.Perm (nodes w.t) ((visitList visit w.idx (rest t i d)).2.2 ++ nodes w'.t) ∧ tr.evs = [] ∧
+      ∀ c ∈ tr.calls, 1 ≤ c.m)
   | 0, w, i, _, inv, g, _, _, hres => by
     refine R.Spec.pure ⟨inv, g, by simp [rest, visitList], by simp [rest, visitList], by simp [rest, visitList, hres],
-      by simp [rest, visitList], rfl⟩
+      by simp [rest, visitList], rfl, by simp⟩
   | d + 1, w, i, hid, inv, g, hsame, hmode, hres => by
     rw [tableWalk_succ]
     have hbound : w.t.bound = t.bound := g.bound
@@ -418,7 +423,7 @@ theorem tableWalk_spec (visit : Nat → Node → Int × Bool) (t : HT) : ∀ (d 
       List.Nodup.sublist ((chain_sublist_nodes hb).map _) inv.nodup
     refine R.Spec.bind (bucketWalk_spec hf visit i b.chain w inv
       (fun m hm => mem_nodes.mpr ⟨i, b, hb, hm⟩) hnd hmodeB) ?_
-    rintro tr1 w1 ⟨i1, g1, o1, s1, x1, r1, z1, p1, ev1⟩
+    rintro tr1 w1 ⟨i1, g1, o1, s1, x1, r1, z1, p1, ev1, pos1⟩
     have hw1res : w1.res = (visitList visit w.idx b.chain).2.1 := by
       by_cases hne : b.chain = []
       · rw [z1 hne, hres, hne]; simp [visitList]
@@ -426,12 +431,13 @@ theorem tableWalk_spec (visit : Nat → Node → Int × Bool) (t : HT) : ∀ (d 
     rw [rest, hchain, visitList_append]
     by_cases hstop : (visitList visit w.idx b.chain).2.1 ≠ 0
     · rw [if_pos hstop, tableWalk_stopped hf visit (by rw [hw1res]; exact hstop)]
-      refine R.Spec.pure ⟨i1, g.trans g1, ?_, ?_, ?_, ?_, ?_⟩
+      refine R.Spec.pure ⟨i1, g.trans g1, ?_, ?_, ?_, ?_, ?_, ?_⟩
       · simpa using s1
       · simpa using x1
       · exact hw1res
       · simpa using p1
       · simp [ev1]
+      · simpa using pos1
     · rw [if_neg hstop]
       have hzero : (visitList visit w.idx b.chain).2.1 = 0 := by simpa using hstop
       have hall := (visitList_prefix visit b.chain w.idx).2 hzero
@@ -441,15 +447,20 @@ theorem tableWalk_spec (visit : Nat → Node → Int × Bool) (t : HT) : ∀ (d 
         rw [o1 j (by omega), hsame j (by omega)]
       refine (tableWalk_spec visit t d w1 (i + 1) (by omega) i1 (g.trans g1) hsame1 hmode
         (by rw [hw1res]; exact hzero)).mono ?_
-      rintro tr2 w2 ⟨i2, g2, s2, x2, r2, p2, ev2⟩
+      rintro tr2 w2 ⟨i2, g2, s2, x2, r2, p2, ev2, pos2⟩
       rw [hidx] at s2 x2 r2 p2
-      refine ⟨i2, g2, ?_, ?_, r2, ?_, ?_⟩
+      refine ⟨i2, g2, ?_, ?_, r2, ?_, ?_, ?_⟩
       · rw [s2, s1]; simp
       · rw [x2]; simp only [List.length_append]; rw [hall]; omega
       · refine p1.trans ?_
         have := List.Perm.append_left (visitList visit w.idx b.chain).2.2 p2
         simpa using this
       · simp [ev1, ev2]
+      · intro c hc
+        simp only [Tr.append_calls, Tr.empty_calls, List.nil_append, List.mem_append] at hc
+        rcases hc with h | h
+        · exact pos1 c h
+        · exact pos2 c h
 
 end Cstl.Hash
 
@@ -462,13 +473,14 @@ theorem hforeach_spec (visit : Nat → Node → Int × Bool) {t : HT} (inv : Inv
     (hforeach hf t visit).Spec (fun tr w =>
       Inv hf w.t ∧ WGeom t w.t ∧ w.seen.reverse = (visitList visit 0 (nodes t)).1 ∧
       w.res = (visitList visit 0 (nodes t)).2.1 ∧
-      List.Perm (nodes t) ((visitList visit 0 (nodes t)).2.2 ++ nodes w.t) ∧ tr.evs = []) := by
+      List.Perm (nodes t) ((visitList visit 0 (nodes t)).2.2 ++ nodes w.t) ∧ tr.evs = [] ∧
+      ∀ c ∈ tr.calls, 1 ≤ c.m) := by
   unfold hforeach
   refine (tableWalk_spec hf visit t t.bound { t := t, idx := 0, seen := [], res := 0 } 0 (by omega) inv
     (WGeom.refl t) (fun _ _ => rfl) hmode rfl).mono ?_
-  rintro tr w ⟨i1, g1, s1, _, r1, p1, ev1⟩
+  rintro tr w ⟨i1, g1, s1, _, r1, p1, ev1, pos1⟩
   rw [rest_all hf inv] at s1 r1 p1
-  refine ⟨i1, g1, ?_, r1, p1, ev1⟩
+  refine ⟨i1, g1, ?_, r1, p1, ev1, pos1⟩
   rw [s1]; simp
 
 theorem foreach_unfold (t : HT) (visit : Nat → Node → Int × Bool) :
@@ -480,25 +492,36 @@ table's elements: the callbacks it makes, the value it returns, and the table
 it leaves (the elements whose callback erased them are gone, everything else
 is still there). -/
 theorem foreach_spec (visit : Nat → Node → Int × Bool) {t : HT} (inv : Inv hf t) :
-    (foreach hf t visit).Spec (fun _ r => ∃ L, List.Perm L (nodes t) ∧
+    (foreach hf t visit).Spec (fun tr r => ∃ L, List.Perm L (nodes t) ∧
       r.2.2 = (visitList visit 0 L).1 ∧ r.2.1 = (visitList visit 0 L).2.1 ∧
       Inv hf r.1 ∧ List.Perm L ((visitList visit 0 L).2.2 ++ nodes r.1) ∧ r.1.rhHash = none ∧
-      r.1.effCount = t.effCount ∧ r.1.effHash = t.effHash) := by
+      r.1.effCount = t.effCount ∧ r.1.effHash = t.effHash ∧ ∀ c ∈ tr.calls, 1 ≤ c.m) := by
   rw [foreach_unfold]
   refine R.Spec.bind (rehash_spec hf inv) ?_
-  rintro tr1 t1 ⟨inv1, hs1, _, _, _, hperm1, _, hcnt1, hhash1, _⟩
+  rintro tr1 t1 ⟨inv1, hs1, _, _, _, hperm1, _, hcnt1, hhash1, hnop1, hcalls1⟩
+  have hpos1 : ∀ c ∈ tr1.calls, 1 ≤ c.m := by
+    intro c hc
+    by_cases hp : t.rhHash.isSome
+    · rw [hcalls1 c hc]; exact (inv.pend hp).2.1
+    · have : tr1 = {} := (hnop1 (by simpa using hp)).2
+      rw [this] at hc; simp at hc
   have hmode : TMode visit t1 ∨ t1.hash = none := by
     cases hh : t1.hash with
     | none => exact Or.inr rfl
     | some h => exact Or.inl (Or.inr ⟨hs1, by rw [hh]; rfl⟩)
   rcases hmode with hmode | hnone
   · refine R.Spec.bind (hforeach_spec hf visit inv1 hmode) ?_
-    rintro tr2 w ⟨i2, g2, s2, r2, p2, _⟩
-    refine R.Spec.pure ⟨nodes t1, hperm1, s2, r2, i2, p2, by rw [g2.1]; exact hs1, ?_, ?_⟩
+    rintro tr2 w ⟨i2, g2, s2, r2, p2, _, pos2⟩
+    refine R.Spec.pure ⟨nodes t1, hperm1, s2, r2, i2, p2, by rw [g2.1]; exact hs1, ?_, ?_, ?_⟩
     · show w.t.effCount = t.effCount
       unfold HT.effCount; rw [g2.1, hs1, g2.2.2.1]; exact hcnt1
     · show w.t.effHash = t.effHash
       unfold HT.effHash; rw [g2.1, hs1, g2.2.1]; exact hhash1
+    · intro c hc
+      simp only [Tr.append_calls, Tr.empty_calls, List.append_nil, List.mem_append] at hc
+      rcases hc with h | h
+      · exact hpos1 c h
+      · exact pos2 c h
   · -- a table that was never resized: nothing to visit
     have fr := inv1.fresh hf hnone
     have hb : t1.bound = 0 := by unfold HT.bound; rw [fr.rh, fr.count]; rfl
@@ -506,13 +529,14 @@ theorem foreach_spec (visit : Nat → Node → Int × Bool) {t : HT} (inv : Inv 
     have : hforeach hf t1 visit = pure { t := t1, idx := 0, seen := [], res := 0 } := by
       unfold hforeach; rw [hb]; rfl
     rw [this]
-    refine R.Spec.bind (R.Spec.pure (P := fun _ w => w = ({ t := t1, idx := 0, seen := [], res := 0 } : Walk)) rfl) ?_
-    rintro tr2 w rfl
-    refine R.Spec.pure ⟨nodes t1, hperm1, by rw [hn]; rfl, by rw [hn]; rfl, inv1, by rw [hn]; simp [visitList], hs1, ?_, ?_⟩
+    refine R.Spec.bind (R.Spec.pure (P := fun tr w => tr = {} ∧ w = ({ t := t1, idx := 0, seen := [], res := 0 } : Walk)) ⟨rfl, rfl⟩) ?_
+    rintro tr2 w ⟨rfl, rfl⟩
+    refine R.Spec.pure ⟨nodes t1, hperm1, by rw [hn]; rfl, by rw [hn]; rfl, inv1, by rw [hn]; simp [visitList], hs1, ?_, ?_, ?_⟩
     · show t1.effCount = t.effCount
       unfold HT.effCount; rw [hs1]; exact hcnt1
     · show t1.effHash = t.effHash
       unfold HT.effHash; rw [hs1]; exact hhash1
+    · simpa using hpos1
 
 theorem foreachConst_unfold (t : HT) (visit : Nat → Node → Int) :
     foreachConst hf t visit = (hforeach hf t (fun i n => (visit i n, false)) >>= fun w =>
@@ -523,11 +547,12 @@ bucket order — whatever stage a pending rehash is in -/
 theorem foreachConst_spec (visit : Nat → Node → Int) {t : HT} (inv : Inv hf t) :
     (foreachConst hf t visit).Spec (fun tr r =>
       r.2 = (visitList (fun i n => (visit i n, false)) 0 (nodes t)).1 ∧
-      r.1 = (visitList (fun i n => (visit i n, false)) 0 (nodes t)).2.1 ∧ tr.evs = []) := by
+      r.1 = (visitList (fun i n => (visit i n, false)) 0 (nodes t)).2.1 ∧ tr.evs = [] ∧
+      ∀ c ∈ tr.calls, 1 ≤ c.m) := by
   rw [foreachConst_unfold]
   refine R.Spec.bind (hforeach_spec hf _ inv (Or.inl (fun _ _ => rfl))) ?_
-  rintro tr w ⟨_, _, s, r, _, ev⟩
-  exact R.Spec.pure ⟨s, r, by simp [ev]⟩
+  rintro tr w ⟨_, _, s, r, _, ev, pos⟩
+  exact R.Spec.pure ⟨s, r, by simp [ev], by simpa using pos⟩
 
 theorem visitList_clear : ∀ (l : List Node) (idx : Nat),
     visitList (fun _ _ => ((0 : Int), false)) idx l = (l, 0, [])
@@ -551,33 +576,28 @@ theorem clear_spec (withCb : Bool) {t : HT} (inv : Inv hf t) :
     (clear hf t withCb).Spec (fun tr r =>
       r.2 = (if withCb then nodes t else []) ∧ Inv hf r.1 ∧ r.1.hash = none ∧ r.1.rhHash = none ∧
       r.1.bk = #[] ∧ r.1.size = 0 ∧ r.1.count = 0 ∧ nodes r.1 = [] ∧
-      tr.evs = (if t.bk.size ≠ 0 then [AllocEv.free] else [])) := by
+      tr.evs = (if t.bk.size ≠ 0 then [AllocEv.free] else []) ∧ ∀ c ∈ tr.calls, 1 ≤ c.m) := by
   rw [clear_unfold]
   have hw : (clearWalk hf t withCb).Spec (fun tr w => w.seen.reverse = (if withCb then nodes t else []) ∧
-      tr.evs = []) := by
+      tr.evs = [] ∧ ∀ c ∈ tr.calls, 1 ≤ c.m) := by
     unfold clearWalk
     cases withCb with
-    | false => exact R.Spec.pure ⟨rfl, rfl⟩
+    | false => exact R.Spec.pure ⟨rfl, rfl, by simp⟩
     | true =>
       simp only [if_true]
-      have hsp := hforeach_spec hf (fun _ _ => ((0 : Int), false)) inv (Or.inl (fun _ _ => rfl))
-      unfold R.Spec at hsp ⊢
-      cases hv : (hforeach hf t (fun _ _ => ((0 : Int), false))).val with
-      | error e => rw [hv] at hsp; exact hsp
-      | ok w =>
-        rw [hv] at hsp
-        obtain ⟨_, _, s, _, p, ev⟩ := hsp
-        rw [visitList_clear] at s p
-        exact ⟨s, ev⟩
+      refine (hforeach_spec hf (fun _ _ => ((0 : Int), false)) inv (Or.inl (fun _ _ => rfl))).mono ?_
+      rintro tr w ⟨_, _, s, _, p, ev, pos⟩
+      rw [visitList_clear] at s
+      exact ⟨s, ev, pos⟩
   refine R.Spec.bind hw ?_
-  rintro tr1 w ⟨s, ev1⟩
-  have hfree : (freeArr t).Spec (fun tr _ => tr.evs = (if t.bk.size ≠ 0 then [AllocEv.free] else [])) := by
+  rintro tr1 w ⟨s, ev1, pos1⟩
+  have hfree : (freeArr t).Spec (fun tr _ => tr.evs = (if t.bk.size ≠ 0 then [AllocEv.free] else []) ∧ tr.calls = []) := by
     unfold freeArr
     by_cases h : t.bk.size ≠ 0
     · rw [if_pos h, if_pos h]; simp [R.Spec, logEv]
-    · rw [if_neg h, if_neg h]; exact R.Spec.pure rfl
+    · rw [if_neg h, if_neg h]; exact R.Spec.pure ⟨rfl, rfl⟩
   refine R.Spec.bind hfree ?_
-  rintro tr2 _ ev2
-  refine R.Spec.pure ⟨s, cleared_inv hf w.t, rfl, rfl, rfl, rfl, rfl, by simp [nodes], by simp [ev1, ev2]⟩
+  rintro tr2 _ ⟨ev2, c2⟩
+  refine R.Spec.pure ⟨s, cleared_inv hf w.t, rfl, rfl, rfl, rfl, rfl, by simp [nodes], by simp [ev1, ev2], by simpa [c2] using pos1⟩
 
 end Cstl.Hash
